@@ -731,6 +731,10 @@ func (c *Client) receipts(ctx context.Context, url string, bm blockmap, start, l
 		}
 		b.Header.Hash.Write(resps[i].Result[0].BlockHash)
 		for j := range resps[i].Result {
+			if uint64(resps[i].Result[j].BlockNum) != blockNum {
+				const tag = "eth_getBlockReceipts receipts of blocks %d and %d in one result"
+				return fmt.Errorf(tag, blockNum, resps[i].Result[j].BlockNum)
+			}
 			tx := b.Tx(uint64(resps[i].Result[j].TxIdx))
 			tx.PrecompHash.Write(resps[i].Result[j].TxHash)
 			tx.Type.Write(byte(resps[i].Result[j].TxType))
@@ -908,6 +912,10 @@ func (c *Client) traces(ctx context.Context, url string, bm blockmap, start, lim
 
 		var tracesByTx = map[key][]traceBlockResult{}
 		for i := range res.Result {
+			if res.Result[i].BlockNum != block.Num() {
+				const tag = "trace_block traces of blocks %d and %d in one result"
+				return fmt.Errorf(tag, block.Num(), res.Result[i].BlockNum)
+			}
 			k := key{block.Num(), uint64(res.Result[i].TxIdx)}
 			if traces, ok := tracesByTx[k]; ok {
 				tracesByTx[k] = append(traces, res.Result[i])
